@@ -56,7 +56,7 @@ Qed.
 Lemma dot1q_contract ports base m v et rest :
   v < 65536 -> et < 65536 ->
   run_parser ports PDot1Q base m (enc_be 2 v ++ enc_be 2 et ++ rest) =
-  Ok ((if base then assign [(cVlanId, VI (v mod 4096)); (cEtype, VI et)] else (fun x => x)) (add_layer m PDot1Q), 4, next_etype et).
+  Ok ((if base then assign [(cVlanId, VI v); (cEtype, VI et)] else (fun x => x)) (add_layer m PDot1Q), 4, next_etype et).
 Proof.
   intros Hv He. rewrite !enc_be_2. cbn [run_parser]. subs.
   rewrite !be2 by assumption. destruct base; reflexivity.
